@@ -23,7 +23,14 @@ import (
 // disagreement replays exactly from (seed, tier).
 type Rand struct{ s uint64 }
 
-func NewRand(seed uint64) *Rand { return &Rand{s: seed*0x9E3779B97F4A7C15 + 0x1234567} }
+func NewRand(seed uint64) *Rand {
+	// hash the seed first: with s = seed*gamma+c the streams of seed k and k+1
+	// would be the same stream shifted by one draw
+	z := seed + 0x632BE59BD9B4E019
+	z = (z ^ (z >> 30)) * 0xBF58476D1CE4E5B9
+	z = (z ^ (z >> 27)) * 0x94D049BB133111EB
+	return &Rand{s: z ^ (z >> 31)}
+}
 
 func (r *Rand) Uint64() uint64 {
 	r.s += 0x9E3779B97F4A7C15
